@@ -260,6 +260,12 @@ Plan generate_plan(const std::string& prop, unsigned long long vseed, unsigned l
         for (auto& o : p.ops) if ((o.kind == OP_PARSE || o.kind == OP_ADDBASE || o.kind == OP_REMOVEBASE) && std::find(slots.begin(), slots.end(), o.a) == slots.end()) slots.push_back(o.a);
         int n = std::min((int)slots.size(), r.range(1, 3));
         for (int i = 0; i < n; i++) { Op t; t.kind = OP_TOSTRING; t.a = slots[(size_t)((int)slots.size() - 1 - i)]; t.cap = CAP_ALL; p.ops.push_back(t); }
+        // written, changed in place, written again: what an earlier measuring or writing call saw must not matter afterwards
+        if (n && r.chance(300)) {
+            Op c; c.a = slots.back(); if (r.chance(700)) { c.kind = OP_NORMALIZE; c.entry = r.range(0, 2); c.opt = r.chance(600) ? 63 : r.range(1, 63); } else { c.kind = OP_MAKEOWNER; c.entry = r.range(0, 1); }
+            p.ops.push_back(c);
+            Op t; t.kind = OP_TOSTRING; t.a = c.a; t.cap = CAP_ALL; p.ops.push_back(t);
+        }
     } else if (prop == "C07") {
         hc.w_free = 2; hc.min_ops = 3; hc.max_ops = thorough ? 14 : 10; hc.w_normalize = 22; hc.refree = false;
         if (hc.text.mutate_per1024 > 120) hc.text.mutate_per1024 = 60;
@@ -401,7 +407,12 @@ Plan generate_plan(const std::string& prop, unsigned long long vseed, unsigned l
             bool have0 = false;
             for (int i = 0; i < nops; i++) {
                 Op o; o.task = t;
-                int k = r.range(0, 13);
+                int k = r.range(0, 14);
+                if (k == 14) {   // allocator probe through the manager table (interesting with a completed manager: overflow and header paths)
+                    static const std::vector<unsigned long long> big = {0, 1, 24, ~0ull, ~0ull - 3, (~0ull >> 1) + 2, 1ull << 33, 3};
+                    o.kind = r.pick(std::vector<int>{OP_A_MALLOC, OP_A_CALLOC, OP_A_REALLOCARRAY}); o.n1 = r.pick(big); o.n2 = r.chance(500) ? 2 : r.pick(big);
+                    tops[(size_t)t].push_back(o); continue;
+                }
                 if (k == 12) {   // a private list composed into a malloc'ed string (released by the harness at the end)
                     Op mkl; mkl.task = t; mkl.kind = OP_MKLIST; mkl.a = q; gen::query_items(r, mkl, 3, 8); tops[(size_t)t].push_back(mkl);
                     o.kind = OP_COMPOSE_MALLOC; o.a = q; o.entry = r.range(0, 2); o.opt = r.range(0, 3);
